@@ -235,7 +235,9 @@ PROPS = {
                        "bitmap); PartialOrd for Nsec3 agrees with Ord (partial_cmp == Some(cmp)); Ord for Nsec3param is the "
                        "field order with the salt as a plain octet string. RRSIG (unit nameorder, real text of the impls of Rrsig): "
                        "== is field-wise with the signer compared as a name; canonical_cmp and cmp are the field order with the signer "
-                       "name by its canonical wire form and the signature as octets; partial_cmp == Some(cmp). "
+                       "name by its canonical wire form and the signature as octets; partial_cmp == Some(cmp). Whole records "
+                       "(base/record.rs, real text): Record::canonical_cmp orders by class, then owner name (RFC 4034 6.1 order), "
+                       "then type, then the canonical RDATA order of the data type. "
                        "Laws proved over the reference definitions the code is tied to: the name order is antisymmetric, "
                        "transitive, and Equal exactly on names that are name_eq (so order, equality and representation cannot "
                        "disagree). Labels, records (Kani on the compiled generic code, whose comparison code is written with "
@@ -245,7 +247,8 @@ PROPS = {
         "not_covered": "Hash for names beyond the bounded harness (for-loop over a label iterator, outside Verus), the relative-name versions "
                        "(ToRelativeName), the iterators themselves (iter_labels/as_flat_slice of Name, ParsedName, Chain are assumed "
                        "to enumerate labels() -- ParsedName's iterator is under contract in C01's unit nameparse), CharStr, canonical "
-                       "ordering of record data of the other types versus canonical wire form (macro-generated per type), Record::canonical_cmp.",
+                       "ordering of record data of the other types versus canonical wire form (macro-generated per type), Eq/Ord/Hash of Record beyond "
+                       "the Kani harness (generic operator calls), Question.",
         "assumptions": [
             "<[u8]>::eq_ignore_ascii_case (core): same length and octets equal after ASCII lower-casing",
             "<[u8] as Ord>::cmp / PartialOrd::partial_cmp (core): left-justified octet-string order (axiom_slice_cmp_octets)",
